@@ -255,6 +255,11 @@ class Interp:
             d = dotted(e)
             if d and d.startswith("self.") and d in env:
                 return env[d]
+            if d and d.startswith("self.") and d.count(".") == 1 and fi.cls is not None:
+                # a bound method used as a callable value (metric_fn=self._ess_objective)
+                m = self.ctx.prog.mro_lookup(fi.cls, e.attr)
+                if m is not None:
+                    return V(func=Closure(m, {}, fi.cls), sym=("attr", d))
             if d and d.startswith("self."):
                 return V(sym=("attr", d))
             b = ev(e.value)
